@@ -224,7 +224,7 @@ func (a *apiGen) amounts() string {
 	for i := 0; i < n; i++ {
 		ad, c1 := a.addr()
 		am, c2 := a.amount()
-		bad := c1 == "empty" || c1 == "overlong" || (c2 != "valid" && c2 != "zero")
+		bad := !(c1 == "own" || c1 == "stranger" || c1 == "other-wallet") || c2 != "valid"
 		if bad && invalid > 0 {
 			ad, c1 = fmt.Sprintf("xaddr:X%d", 1+i), "stranger"
 			am, c2 = "a:0.25", "valid"
@@ -667,6 +667,21 @@ func (a *apiGen) flowAuto() {
 	}
 }
 
+// recvBadIndex delivers an unconfirmed transaction one of whose inputs names an output index just past the
+// end of a known transaction (the follower must refuse it with an error, not index out of range)
+func (a *apiGen) recvBadIndex() {
+	l := a.l
+	ks := a.knownTxs()
+	if len(ks) == 0 {
+		return
+	}
+	src := l.defined[ks[a.rn(len(ks))]]
+	l.nTx++
+	name := fmt.Sprintf("T%d", l.nTx)
+	a.g.Op("tx-badindex", "tx %s %d %s:%d %s:%d", name, l.nTx, src.name, len(src.outs)+a.rn(2), l.stranger(), 1+a.rn(9))
+	a.g.Op("recvtx-badindex", "recvtx %s", name)
+}
+
 // craftPending delivers an unconfirmed transaction with template-violating outputs (it may be mined later)
 func (a *apiGen) craftPending() {
 	l := a.l
@@ -751,9 +766,12 @@ func genApi(g *Gen) {
 					a.cur = w
 				}
 			case k < 16:
-				if g.Rng.Intn(2) == 0 {
+				switch g.Rng.Intn(5) {
+				case 0, 1:
 					a.craft()
-				} else {
+				case 2:
+					a.recvBadIndex()
+				default:
 					a.craftPending()
 				}
 			case k == 16:
